@@ -413,6 +413,8 @@ type vDocLife struct {
 	remCall, remRet int64
 	remOK           bool
 	removed         bool
+	addRetLast      int64 // return of the last add (several adds of one id)
+	nAdds           int
 }
 
 // vJudgeVisibility checks every search event against the add/remove events.
@@ -420,6 +422,9 @@ type vDocLife struct {
 func vJudgeVisibility(events []vEvent, pre []uint32, allowedErr func(e vEvent) bool) [][3]string {
 	var out [][3]string
 	life := map[uint32]*vDocLife{}
+	// earlier lives of an id that was removed and then added again (update = remove + add):
+	// a search is judged against every life of the id
+	past := map[uint32][]*vDocLife{}
 	for _, id := range pre {
 		life[id] = &vDocLife{added: true, addOK: true}
 	}
@@ -433,7 +438,30 @@ func vJudgeVisibility(events []vEvent, pre []uint32, allowedErr func(e vEvent) b
 				l = &vDocLife{}
 				life[id] = l
 			}
-			l.added, l.addCall, l.addRet, l.addOK = true, e.Call, e.Ret, e.Err == ""
+			if l.added && l.removed && l.remOK && e.Call > l.remRet {
+				// the id was removed (completed) before this add was called: a new life
+				past[id] = append(past[id], l)
+				l = &vDocLife{}
+				life[id] = l
+			}
+			l.nAdds++
+			if !l.added {
+				l.added, l.addCall, l.addRet, l.addOK, l.addRetLast = true, e.Call, e.Ret, e.Err == "", e.Ret
+			} else {
+				// several adds of one id (a replace racing a replace): the document exists from
+				// the earliest call on, is guaranteed from the earliest successful return on,
+				// and only a removal that follows the LAST add is definitive
+				if e.Call < l.addCall {
+					l.addCall = e.Call
+				}
+				if e.Err == "" && (!l.addOK || e.Ret < l.addRet) {
+					l.addRet = e.Ret
+				}
+				l.addOK = l.addOK || e.Err == ""
+				if e.Ret > l.addRetLast {
+					l.addRetLast = e.Ret
+				}
+			}
 		case strings.HasPrefix(e.Op, "Remove("):
 			fmt.Sscanf(e.Op, "Remove(%d)", &id)
 			l := life[id]
@@ -463,9 +491,15 @@ func vJudgeVisibility(events []vEvent, pre []uint32, allowedErr func(e vEvent) b
 		for _, id := range e.IDs {
 			got[id] = true
 		}
-		for id, l := range life {
-			mustInclude := l.added && l.addOK && l.addRet < e.Call && (!l.removed || l.remCall > e.Ret)
-			mustExclude := (l.removed && l.remOK && l.remRet < e.Call && l.remRet > l.addRet) || !l.added || (l.added && l.addCall > e.Ret) || (l.added && !l.addOK)
+		for id, cur := range life {
+			mustInclude, mustExclude := false, true
+			l := cur
+			for _, x := range append(append([]*vDocLife(nil), past[id]...), cur) {
+				inc := x.added && x.addOK && x.addRet < e.Call && (!x.removed || x.remCall > e.Ret)
+				exc := (x.removed && x.remOK && x.remRet < e.Call && x.remRet > x.addRet && (x.nAdds <= 1 || x.remCall > x.addRetLast)) || !x.added || (x.added && x.addCall > e.Ret) || (x.added && !x.addOK)
+				mustInclude = mustInclude || inc
+				mustExclude = mustExclude && exc
+			}
 			if mustInclude && !got[id] {
 				out = append(out, [3]string{"search-missed-completed-add", "", fmt.Sprintf("%s %s [%d,%d] returned %v but Add(%d) completed at %d and no removal had begun", e.Thread, e.Op, e.Call, e.Ret, e.IDs, id, l.addRet)})
 			}
